@@ -120,24 +120,26 @@ class Corpus:
         self.dir = os.path.join(VERIF, 'build', 'progs', '%s-%s' % (name, tier))
         self.target = os.path.join(VERIF, 'target', 'progs-%s-%s%s' % (name, tier, '-docs' if docs else ''))
         self.defs = []        # (defid, shard, source, meta dict)
+        # thorough corpora are ~10x larger: more, smaller shards keep every rustc process within memory (16 run at a time)
+        self.nshards = NSHARDS * 3 if tier == 'thorough' else NSHARDS
 
     def add(self, defid, source, meta):
-        shard = len(self.defs) % NSHARDS
+        shard = len(self.defs) % self.nshards
         self.defs.append([defid, shard, source, meta])
 
     def crate(self, shard): return 'shard_%02d' % shard
 
     def write(self, excluded):
         os.makedirs(self.dir, exist_ok=True)
-        members = [self.crate(k) for k in range(NSHARDS)]
+        members = [self.crate(k) for k in range(self.nshards)]
         write_if_changed(os.path.join(self.dir, 'Cargo.toml'), '[workspace]\nresolver = "2"\nmembers = [%s]\n\n[profile.dev]\nopt-level = 0\ndebug = false\nincremental = false\ncodegen-units = 16\n' % ', '.join(json.dumps(m) for m in members))
         write_if_changed(os.path.join(self.dir, '.cargo', 'config.toml'), '[net]\noffline = true\n')
         lock = open(os.path.join(VERIF, 'harness', 'Cargo.lock')).read()
         lp = os.path.join(self.dir, 'Cargo.lock')
         if not os.path.exists(lp): open(lp, 'w').write(lock)
-        by = {k: [] for k in range(NSHARDS)}
+        by = {k: [] for k in range(self.nshards)}
         for defid, shard, source, meta in self.defs: by[shard].append((defid, source))
-        for k in range(NSHARDS):
+        for k in range(self.nshards):
             c = self.crate(k)
             cd = os.path.join(self.dir, c)
             write_if_changed(os.path.join(cd, 'Cargo.toml'), '''[package]
@@ -176,7 +178,7 @@ serde = { version = "1", features = ["derive"] }
         """returns (ok, {defid: first error message}, unattributed {shard: [messages]}, tail)"""
         cmd = ['cargo', 'build', '--offline', '--message-format=json', '--keep-going']
         if only_shard is not None: cmd += ['-p', self.crate(only_shard)]
-        if self.docs: cmd += ['--features', ','.join('%s/docs' % self.crate(k) for k in (range(NSHARDS) if only_shard is None else [only_shard]))]
+        if self.docs: cmd += ['--features', ','.join('%s/docs' % self.crate(k) for k in (range(self.nshards) if only_shard is None else [only_shard]))]
         r = sh(cmd, self.dir, {'CARGO_TARGET_DIR': self.target})
         failing, other = {}, {}
         for line in r.stdout.splitlines():
@@ -250,7 +252,7 @@ serde = { version = "1", features = ["derive"] }
 
     def run(self):
         fails, counts = [], {}
-        for k in range(NSHARDS):
+        for k in range(self.nshards):
             exe = os.path.join(self.target, 'debug', self.crate(k))
             r = subprocess.run([exe], stdout=subprocess.PIPE, stderr=subprocess.PIPE, text=True)
             if r.returncode != 0:
@@ -272,7 +274,7 @@ def derive_corpus(tier, docs):
     for fam, defs in (('enc', deriveg.enc_definitions(thorough)), ('gen', deriveg.gen_definitions(thorough))):
         for d in defs:
             defid = 'd%06d' % n
-            shard = n % NSHARDS
+            shard = n % c.nshards
             src = def_module(d, defid, 'shard_%02d' % shard, fam, cap)
             c.add(defid, src, {'family': fam, 'tag': d.tag, 'overlays': d.overlays, 'generic': bool(d.generics or d.lifetime or d.constp), 'noinfo': bool(d.noinfo_inst),
                                'encoded_as': any(m.encoded_as for m in deriveg.all_members(d)), 'def_src': deriveg.def_src(d),
